@@ -6,7 +6,7 @@
    Rankings are flat strict complete orders, `list N`, best first
    (= the tuples returned by OrdinalInstance.flatten_strict()). *)
 From Coq Require Import List Arith NArith Bool Permutation.
-From PrefVerif Require Import Lib.Perms.
+From PrefVerif Require Import Lib.Perms Model.Distances.
 Import ListNotations.
 
 (* ---------------------------------------------------------------------------------------------- *)
@@ -133,4 +133,33 @@ Fixpoint dedup (l : list (list N)) : list (list N) :=
   match l with
   | [] => []
   | x :: t => if mem_order x t then dedup t else x :: dedup t
+  end.
+
+(* the unordered pairs of a list, each once (first component listed first) *)
+Fixpoint pairs (l : list N) : list (N * N) :=
+  match l with [] => [] | x :: t => map (pair x) t ++ pairs t end.
+
+(* ---------------------------------------------------------------------------------------------- *)
+(* Mirror of _is_ordered_profile_single_crossing (the verification pass of is_single_crossing):
+     for i in range(1, len(profile) - 1):
+         if K(profile[0], profile[i]) + K(profile[i], profile[i+1]) != K(profile[0], profile[i+1]): return False
+     return True
+   with K = kendall_tau_distance (Model/Distances.v: kendall_tau o1 o2 = Ok (kt_count o2 o1) on rankings of equal
+   length over the same alternatives). *)
+Definition ktd (o1 o2 : list N) : nat := kt_count o2 o1.
+
+Fixpoint ordered_check_from (first : list N) (l : list (list N)) : bool :=
+  match l with
+  | [] => true
+  | oi :: t =>
+      match t with
+      | [] => true
+      | oi1 :: _ => (ktd first oi + ktd oi oi1 =? ktd first oi1) && ordered_check_from first t
+      end
+  end.
+
+Definition ordered_check (s : list (list N)) : bool :=
+  match s with
+  | [] => true
+  | first :: t => ordered_check_from first t
   end.
